@@ -211,7 +211,13 @@ impl RawLexiconEntry {
         w.write_all(&self.pos.to_le_bytes())?;
         size += 2;
         size += u16w.write_empty_if_equal(w, self.norm_form(), self.headword())?;
-        w.write_all(&self.dic_form.as_raw().to_le_bytes())?;
+        // readers look the dictionary form up in the same lexicon: store the plain word index
+        let dic_form = if self.dic_form == WordId::INVALID {
+            self.dic_form.as_raw()
+        } else {
+            self.dic_form.word()
+        };
+        w.write_all(&dic_form.to_le_bytes())?;
         size += 4;
         size += u16w.write_empty_if_equal(w, self.reading(), self.headword())?;
         size += write_u32_array(w, &self.splits_a)?;
@@ -432,7 +438,16 @@ impl LexiconReader {
             }
 
             if e.dic_form != WordId::INVALID {
-                ctx.transform(Self::validate_wid(e.dic_form, max_0, max_1, "dic_form"))?;
+                // dictionary form is resolved inside the lexicon which is being compiled
+                let is_system = self.num_system == usize::MAX;
+                let word = e.dic_form.word() as usize;
+                if (is_system && e.dic_form.dic() != 0) || word >= self.entries.len() {
+                    return ctx.err(BuildFailure::InvalidFieldSize {
+                        actual: word,
+                        expected: self.entries.len(),
+                        field: "dic_form",
+                    });
+                }
             }
 
             for s in e.splits_a.iter() {
